@@ -155,16 +155,16 @@ def warm(gen_inner, run_inner, n=60):
     for _ in range(n):
         c = gen_inner(rng, 'quick')
         if guard:
-            old = signal.signal(signal.SIGALRM, core._on_alarm)
-            signal.setitimer(signal.ITIMER_REAL, 3.0)
+            old = signal.signal(signal.SIGVTALRM, core._on_alarm)
+            signal.setitimer(signal.ITIMER_VIRTUAL, 3.0)
         try:
             run_inner(c)
         except core.RunTimeout:
             pass        # a warm-up request that never returns: the seeded runs will meet and report it
         finally:
             if guard:
-                signal.setitimer(signal.ITIMER_REAL, 0)
-                signal.signal(signal.SIGALRM, old)
+                signal.setitimer(signal.ITIMER_VIRTUAL, 0)
+                signal.signal(signal.SIGVTALRM, old)
     app = ombott.Ombott({'max_body_size': 10})
     app.route('/w/<k:int>', method=['GET', 'POST'], callback=lambda k: app.request.body.read() and 'x')
     for env in (make_environ('GET', '/nope'), make_environ('PUT', '/w/1'),
